@@ -176,6 +176,10 @@ def configs(tier):
     # removed at start all the same, reserved entries are kept
     for variant in ('no-capable-block', 'persistence-off', 'other-block-only'):
         out.append(dict(mode='releases', variant=variant))
+    # the restored state differs from the stored entry (the modulo of a Counter changed between
+    # two releases): after the initialisation the storage holds the state the block really has
+    for m1, m2, val in ((20, 5, 17), (None, 7, 30), (10, 10, 4)):
+        out.append(dict(mode='modulo-changed', m1=m1, m2=m2, val=val))
     # restart with start-up traffic: another block's first output sends an event (plain, filtered
     # out, conditional resolving to 'no event') to the persistent block before / after its restore
     for kind in BLOCKS[:5]:
@@ -467,8 +471,48 @@ def run_releases(cfg, acc):
     return acc
 
 
+def run_modulo_changed(cfg, acc):
+    storage = SnapshotDict()
+    res = {}
+    for n, mod in ((1, cfg['m1']), (2, cfg['m2'])):
+        with Sim(base_unix_us=BASE_US + n * 100_000_000) as sim:
+            cnt = edzed.Counter('cnt', persistent=True, initdef=0, modulo=mod)
+            sim.circuit.set_persistent_data(storage)
+
+            async def driver():
+                task = asyncio.create_task(sim.circuit.run_forever())
+                await sim.circuit.wait_init()
+                res[n] = (cnt.output, copy.deepcopy(storage.get(cnt.key, NO_ENTRY)))
+                if n == 1:
+                    edzed.ExtEvent(cnt, 'put').send(cfg['val'])
+                    await stop(sim.circuit)
+                else:
+                    # crash: no regular stop
+                    sim.circuit.abort(RuntimeError('crash'))
+                    task.cancel()
+                del task
+            try:
+                sim.run(driver())
+            except BaseException:   # pylint: disable=broad-except
+                pass
+        acc.execs += 1
+    acc.outcome(('modulo-changed', cfg['m1'], cfg['m2'], cfg['val'], repr(res)))
+    acc.state(('modulo-changed', cfg['m1'], cfg['m2']))
+    exp = cfg['val'] % cfg['m2']
+    out2, entry2 = res.get(2, (None, None))
+    if out2 != exp:
+        acc.violation('C06:restored-state-differs:Counter', f"{cfg}: restored output {out2!r}, expected {exp}", cfg=cfg)
+    elif entry2 != exp:
+        acc.violation('C06:storage-differs-from-state:Counter',
+                      f"{cfg}: after the initialisation the Counter holds {out2!r} but the storage entry is "
+                      f"{entry2!r}", cfg=cfg)
+    return acc
+
+
 def run_config(cfg):
     acc = Acc()
+    if cfg['mode'] == 'modulo-changed':
+        return run_modulo_changed(cfg, acc)
     if cfg['mode'] == 'releases':
         return run_releases(cfg, acc)
     if cfg['mode'] == 'failstart':
